@@ -4,6 +4,7 @@ import (
 	"flag"
 	"fmt"
 	"os"
+	"runtime/pprof"
 	"sort"
 	"strings"
 	"time"
@@ -13,7 +14,25 @@ import (
 	"bmsym/sym"
 )
 
+func heapProf() {
+	f := os.Getenv("BMSYM_HEAPPROF")
+	if f == "" {
+		return
+	}
+	go func() {
+		for i := 0; ; i++ {
+			time.Sleep(20 * time.Second)
+			w, err := os.Create(fmt.Sprintf("%s.%d", f, i))
+			if err == nil {
+				pprof.WriteHeapProfile(w)
+				w.Close()
+			}
+		}
+	}()
+}
+
 func main() {
+	heapProf()
 	if len(os.Args) < 2 {
 		fmt.Fprintln(os.Stderr, "usage: bmsym <run|check> ...")
 		os.Exit(2)
